@@ -4,7 +4,7 @@
     fields; the kidOK table and the numeric codes are regenerated from /repo on every run).  Spec: Spec13.v. *)
 From Coq Require Import NArith List Bool Arith.
 From XV Require Import Base.XDefs Gen.GenKidOK C13.Ops13 C13.Spec13 C13.Model13 C13.Abs13 C13.Proofs13a C13.Proofs13b C13.Proofs13c C13.Proofs13d C13.Proofs13e
-  C13.Proofs13f C13.Proofs13g C13.Proofs13h C13.Proofs13i C13.Proofs13j C13.Proofs13k.
+  C13.Proofs13f C13.Proofs13g C13.Proofs13h C13.Proofs13i C13.Proofs13j C13.Proofs13k C13.Proofs13l.
 Import ListNotations.
 
 (** tie to the source: the regenerated kidOK table is the DOM structure model *)
@@ -47,7 +47,7 @@ Print Assumptions T13_clone_flag_fixed.
     refuses the fragment as a whole *)
 Theorem T13_fragment_into_document_refuted :
   let h0 := fst (run_cfg cfg_fixed (init_heap 1) (removelast w_fragdoc)) in
-  let '(h1, r) := step h0 (OAppend 0 1) in
+  let '(h1, r) := step_cfg cfg_head h0 (OAppend 0 1) in
   r = RErr HIERARCHY /\ kids h0 0 = [] /\ kids h1 0 = [2] /\ kids h1 1 = [3] /\
   sstep (abs h0) (OAppend 0 1) = (abs h0, RErr HIERARCHY).
 Proof. exact frag_into_doc_found. Qed.
@@ -161,7 +161,7 @@ Proof. vm_compute. repeat split; reflexivity. Qed.
 (** KNOWN FINDINGS F30 / F31 on the faithful model *)
 Theorem T13_rename_unchecked_name_refuted :
   let h := fst (step (init_heap 1) (OCreate 0 TElem A [])) in
-  snd (step h (ORename 0 1 [] [49; 97]%N)) = RNode 1 /\ snd (sstep (abs h) (ORename 0 1 [] [49; 97]%N)) = RErr INVALID_CHAR.
+  snd (step_cfg cfg_head h (ORename 0 1 [] [49; 97]%N)) = RNode 1 /\ snd (sstep (abs h) (ORename 0 1 [] [49; 97]%N)) = RErr INVALID_CHAR.
 Proof. vm_compute. split; reflexivity. Qed.
 Print Assumptions T13_rename_unchecked_name_refuted.
 
@@ -245,3 +245,46 @@ Theorem T13_attr_node_identity : forall h e a h' r, remove_attribute_node h e a 
   (r = RNode a /\ In a (n_attrs (nd h e))) \/ ((r = RErr NOT_FOUND \/ r = RErr NO_MOD) /\ h' = h).
 Proof. exact remove_attribute_node_identity. Qed.
 Print Assumptions T13_attr_node_identity.
+
+(** ------------------------------------------------------------------------------------------------------------
+    User data.  The model keeps the records of the document's (node, key) table with the node they belong to; node identity
+    is creation order, so a node created after a release() is a NEW node even when the implementation recycles the storage.
+    T13_userdata_fresh: every createX returns a node without user data.  T13_userdata_set_get / _frame: setUserData(n, key)
+    makes getUserData(n, key) return the data and changes no other node (and no other key of n, [ud_get_del_other]).
+    NOT proved: the frame over ALL operations ("user data of n changes only by setUserData on n, release, renameNode's
+    transfer"); the correspondence compares getUserData for every (live node, key) pair after every operation. *)
+Theorem T13_userdata_fresh : forall h d t nm v h' i key, create h d t nm v = (h', RNode i) ->
+  n_udata (nd h' i) = [] /\ snd (get_user_data h' i key) = RData 0.
+Proof. exact create_no_user_data. Qed.
+Print Assumptions T13_userdata_fresh.
+
+Theorem T13_userdata_set_get : forall h n key data hd, n < length h -> data <> 0%N ->
+  snd (get_user_data (fst (set_user_data h n key data hd)) n key) = RData data.
+Proof. exact set_get_user_data. Qed.
+Print Assumptions T13_userdata_set_get.
+
+Theorem T13_userdata_frame : forall h n key data hd m, m <> n ->
+  n_udata (nd (fst (set_user_data h n key data hd)) m) = n_udata (nd h m) /\
+  n_hasud (nd (fst (set_user_data h n key data hd)) m) = n_hasud (nd h m).
+Proof. exact set_user_data_frame. Qed.
+Print Assumptions T13_userdata_frame.
+
+(** The ID map (DOMNodeIDMap with its hash, probe sequence and deleted markers; growth not modelled): remove(attr) marks
+    the slot holding THAT attribute and leaves every other entry -- in particular one of another attribute with the same
+    value -- where it is. *)
+Theorem T13_idmap_remove_identity : forall h a k, n_odoc (nd h a) < length h ->
+  let d := n_odoc (nd h a) in
+  tab_get (n_idtab (nd (id_remove h a) d)) k = tab_get (n_idtab (nd h d)) k \/
+  (tab_get (n_idtab (nd h d)) k = Some (Some a) /\ tab_get (n_idtab (nd (id_remove h a) d)) k = Some None).
+Proof. exact id_remove_identity. Qed.
+Print Assumptions T13_idmap_remove_identity.
+
+(** non-vacuity + the duplicate-ID scenario on the model: two elements carry the ID "d"; un-registering the SECOND one
+    leaves getElementById("d") on the first, un-registering the first moves it to the second *)
+Example T13_duplicate_ids :
+  let pre := [OCreate 0 TElem A []; OCreate 0 TElem X []; OSetAttr 1 A [100%N]; OSetAttr 2 A [100%N]; OSetIdAttr 1 A true; OSetIdAttr 2 A true] in
+  snd (run_cfg cfg_fixed (init_heap 1) (pre ++ [ORemoveAttrNode 2 5; OGetById 0 [100%N]])) =
+    [RNode 1; RNode 2; ROk; ROk; ROk; ROk; RNode 5; RNode 1] /\
+  snd (run_cfg cfg_fixed (init_heap 1) (pre ++ [OSetIdAttr 1 A false; OGetById 0 [100%N]])) =
+    [RNode 1; RNode 2; ROk; ROk; ROk; ROk; ROk; RNode 2].
+Proof. vm_compute. split; reflexivity. Qed.
